@@ -121,11 +121,10 @@ def main():
                 if op.get("replace") and op["replace"] in funcs:
                     import props.c06 as c06
 
-                    repl = c06.make_replacement(funcs[op["replace"]], 1)
+                    repl = c06.make_replacement(funcs[op["replace"]], op.get("replace_delta", 1))
                     if hasattr(funcs[op["replace"]], "__info__"):
                         repl.__info__ = dict(funcs[op["replace"]].__info__)
-                    else:
-                        repl.__name__ = op["replace"]
+                    repl.__name__ = op["replace"]          # a function given in the list is registered under its __name__
                     farg = [funcs, repl]          # the documented list form; funcs is the caller's own collection
                 out = compute_taxes_and_transfers(data=data, params=params, functions=farg, targets=op.get("targets"),
                                                   rounding=op.get("rounding", True))
